@@ -15,7 +15,7 @@ def run(ctx):
         arr = streams.recut([(">", ex["q"]), ("<", ex["s"])], "rand", rnd)
         yield "rand", arr
         yield "byte", streams.recut([(">", ex["q"]), ("<", ex["s"])], "byte")
-    rs, meta = wirecheck.build_rows(ctx, scns, schedules, lambda sc: [wirecheck.PERS_SAMPLE[sc["i"] % 2 * 1], wirecheck.PERS_SAMPLE[(sc["i"] // 2) % len(wirecheck.PERS_SAMPLE)]][: (1 if q else 2)])
+    rs, meta = wirecheck.build_rows(ctx, scns, schedules, lambda sc: [wirecheck.PERS_SAMPLE[sc["i"] % 2 * 1], wirecheck.PERS_SAMPLE[2 + (sc["i"] // 2) % (len(wirecheck.PERS_SAMPLE) - 2)]][: (1 if q else 2)])
     exe = vlib.build(ctx, "san", ["rec"])["rec"]
     files = streams.run_rec(ctx, exe, rs, "c02")
     rows = wirecheck.rows_from_traces(ctx, files, rs, meta)
